@@ -242,6 +242,10 @@ pub fn crafted_corpus() -> Vec<Crafted> {
         }));
         arch("tile-length-u32-max", assemble(c, &vals(&[1, 3, 1, u64::from(u32::MAX), 1]), &[], |_, _| {}));
         arch("tile-offset-huge", assemble(c, &vals(&[1, 3, 1, 10, 1 << 62]), &[], |_, _| {}));
+        // a readable tile followed by one whose absolute offset lies just below / at / just above 2^63 (signed seek arithmetic)
+        for (nm, off) in [("2^63-300", (1u64 << 63) - 300), ("2^63-1", (1u64 << 63) - 1), ("2^63", 1u64 << 63), ("2^63+5", (1u64 << 63) + 5), ("2^64-300", u64::MAX - 300)] {
+            arch(&format!("second-tile-offset-{nm}"), assemble(c, &vals(&[2, 3, 1, 1, 1, 10, 10, 1, off.wrapping_add(1)]), &[], |_, _| {}));
+        }
         arch("run-length-2^21", assemble(c, &vals(&[1, 3, 1 << 21, 10, 1]), &[], |_, _| {}));
         arch("run-length-2^32-1-over-budget", assemble(c, &vals(&[1, 3, u64::from(u32::MAX), 10, 1]), &[], |_, _| {}));
         // leaf pointers
